@@ -386,10 +386,15 @@ func (x *X) execOptions(op *Op, rec *OpRec) []z.ExecOption {
 					conf.IssueFormatter(e, c)
 				}))
 			case "stamp":
-				out = append(out, z.WithIssueFormatter(func(e *z.ZogIssue, c z.Ctx) {
+				f := func(e *z.ZogIssue, c z.Ctx) {
 					rec.FmtSeen = append(rec.FmtSeen, e.Path+"|"+e.Code)
 					e.SetMessage("EXEC:" + e.Code)
-				}))
+				}
+				if o.Key == "legacy" {
+					out = append(out, z.WithErrFormatter(f)) // the older name of the same option
+				} else {
+					out = append(out, z.WithIssueFormatter(f))
+				}
 			}
 		}
 	}
@@ -604,6 +609,8 @@ func callParse(b *Built, data any, dest reflect.Value, opts []z.ExecOption) any 
 		return s.Parse(data, d.(*float64), opts...)
 	case *z.NumberSchema[int64]:
 		return s.Parse(data, d.(*int64), opts...)
+	case *z.NumberSchema[int32]:
+		return s.Parse(data, d.(*int32), opts...)
 	case *z.NumberSchema[float32]:
 		return s.Parse(data, d.(*float32), opts...)
 	case *z.BoolSchema[bool]:
@@ -640,6 +647,8 @@ func callValidate(b *Built, dest reflect.Value, opts []z.ExecOption) any {
 		return s.Validate(d.(*float64), opts...)
 	case *z.NumberSchema[int64]:
 		return s.Validate(d.(*int64), opts...)
+	case *z.NumberSchema[int32]:
+		return s.Validate(d.(*int32), opts...)
 	case *z.NumberSchema[float32]:
 		return s.Validate(d.(*float32), opts...)
 	case *z.BoolSchema[bool]:
